@@ -1,7 +1,99 @@
-(* C05/Properties.v — property C05 (work in progress) *)
-From Common Require Import Bytes Outcome.
-From C05 Require Import Model.
+(* C05/Properties.v — property C05: storage read proofs are complete and sound.
+   Only statements, each closed by `exact <lemma>`, with Print Assumptions beneath.
 
-Theorem C05_placeholder : R_NOTFOUND <> R_MISMATCH.
-Proof. discriminate. Qed.
-Print Assumptions C05_placeholder.
+   Model: coq/C05/Model.v (proof.Generate / walkRoot / walk, proof.Verify / buildTrie / loadProof,
+   db.NewMemoryDBFromProof, InMemoryTrie.Get) over the node codec of C07 and the database model
+   of C04; tied to the Go code by props/C05 (honest and adversarial node sets).
+
+   Soundness is proved for every node set.  Completeness (Verify accepts every pair of the state
+   with the generated proof) is checked by the correspondence harness on every generated proof
+   and refuted for the pinned tree below; its general proof is not part of this development:
+     forall t ks k v, In k ks -> lookup t (nibbles_of_bytes k) = Some v ->
+       generate ... t ks = Ok nodes -> verify ... nodes (root t) k v = Ok tt. *)
+From Common Require Import Bytes Outcome Blake2b.
+From TrieCodec Require Import Codec View Db ProofsDecode ProofsDb.
+From C05 Require Import Model ProofsSound.
+Local Open Scope N_scope.
+
+(* Soundness.  Whatever proof items are supplied (omitted, duplicated, foreign, altered, reordered
+   nodes), if Verify (with fixes/C05-2, C02-get-exhausted-key-nested) accepts (key, value) under the
+   root hash of a well-formed trie t, then t holds a value under key, and it is [value] unless the
+   caller passed the empty value (the documented "existence only" query).
+   [no_coll nodes t]: no supplied item collides under H with a different string of t (node
+   encodings, hashed values).  The empty key is excluded unless the root has an empty partial key
+   (known finding verify-empty-key). *)
+Theorem C05_sound :
+  forall (H : list byte -> list byte), (forall x, length (H x) = 32%nat) ->
+  forall st dfix ifix nodes t key value,
+  wf_node t = true -> no_coll H nodes t ->
+  (key <> [] \/ t_pk t = []) ->
+  verify H st dfix true ifix true nodes (H (encode H t)) key value = Ok tt ->
+  exists v, lookup t (nibbles_of_bytes key) = Some v /\ (value = [] \/ value = v).
+Proof. exact verify_sound. Qed.
+Print Assumptions C05_sound.
+
+(* in particular an absent key is never confirmed, and a wrong non-empty value is never confirmed *)
+Theorem C05_sound_absent :
+  forall (H : list byte -> list byte), (forall x, length (H x) = 32%nat) ->
+  forall st dfix ifix nodes t key value,
+  wf_node t = true -> no_coll H nodes t -> (key <> [] \/ t_pk t = []) ->
+  lookup t (nibbles_of_bytes key) = None ->
+  verify H st dfix true ifix true nodes (H (encode H t)) key value <> Ok tt.
+Proof.
+  intros H Hlen st dfix ifix nodes t key value W Nc Hk Hl E.
+  destruct (verify_sound H Hlen st dfix ifix nodes t key value W Nc Hk E) as (v & Hv & _). congruence.
+Qed.
+Print Assumptions C05_sound_absent.
+
+(* ------------------------------------------------------------------ examples with the real hash *)
+Definition nib (l : list N) : list byte := map n2b l.
+Definition v33 : list byte := repeat (n2b 7) 33.
+Definition none16 : list (option tnode) := repeat None 16.
+Definition at_ (i : nat) (c : tnode) (l : list (option tnode)) : list (option tnode) :=
+  firstn i l ++ Some c :: skipn (S i) l.
+
+(* V1 state {0x1f10 -> 33 bytes}: a leaf whose value is stored by hash *)
+Definition ex_leaf : tnode := TN (nib [1; 15; 1; 0]) (Some v33) true [].
+(* V1 state {0x10 -> 33 bytes, 0x1001 -> 01}: a branch whose value is stored by hash *)
+Definition ex_branch : tnode :=
+  TN (nib [1; 0]) (Some v33) true (at_ 0 (TN (nib [1]) (Some (nib [1])) false []) none16).
+(* {0x01 -> empty, 0x02 -> 01}: an inlined leaf with an empty value *)
+Definition ex_empty : tnode :=
+  TN (nib [0]) None false
+     (at_ 1 (TN [] (Some []) false []) (at_ 2 (TN [] (Some (nib [1])) false []) none16)).
+
+Definition B := blake2b_256.
+Definition rootB (t : tnode) : list byte := B (encode B t).
+Definition gen (vfix : bool) (t : tnode) (k : list byte) : list (list byte) :=
+  match generate B vfix true (Some t) [k] with Ok l => l | _ => [] end.
+
+(* non-vacuity: with the repaired code the generated proofs of the three states verify, a wrong
+   value and an absent key are rejected *)
+Example C05_nonvacuous :
+     wf_node ex_leaf = true /\ wf_node ex_branch = true /\ wf_node ex_empty = true
+  /\ length (gen true ex_leaf (nib [31; 16])) = 2%nat
+  /\ verify B (false, false) true true true true (gen true ex_leaf (nib [31; 16])) (rootB ex_leaf) (nib [31; 16]) v33 = Ok tt
+  /\ verify B (false, false) true true true true (gen true ex_branch (nib [16])) (rootB ex_branch) (nib [16]) v33 = Ok tt
+  /\ verify B (false, false) true true true true (gen true ex_empty (nib [1])) (rootB ex_empty) (nib [1]) [] = Ok tt
+  /\ verify B (false, false) true true true true (gen true ex_leaf (nib [31; 16])) (rootB ex_leaf) (nib [31; 16]) (nib [9]) = Err R_MISMATCH
+  /\ verify B (false, false) true true true true (gen true ex_leaf (nib [31; 16])) (rootB ex_leaf) (nib [31; 17]) v33 = Err R_NOTFOUND.
+Proof. repeat split; vm_compute; reflexivity. Qed.
+
+(* the pinned tree: (1) Generate does not ship hashed values, so the real value of 0x1f10 is not
+   confirmed; (2) Get returns the hash kept in a branch, so the real value of 0x10 is rejected and
+   its hash is confirmed as the value; (3) loadProof drops an inlined leaf with an empty value;
+   (4) Generate on the empty state panics *)
+Theorem C05_pinned_refuted :
+     verify B (false, false) true false false false (gen false ex_leaf (nib [31; 16])) (rootB ex_leaf) (nib [31; 16]) v33
+     = Err R_NOTFOUND
+  /\ verify B (false, false) true false false false (gen true ex_branch (nib [16])) (rootB ex_branch) (nib [16]) v33
+     = Err R_MISMATCH
+  /\ verify B (false, false) true false false false (gen true ex_branch (nib [16])) (rootB ex_branch) (nib [16]) (B v33)
+     = Ok tt
+  /\ lookup ex_branch (nibbles_of_bytes (nib [16])) = Some v33
+  /\ verify B (false, false) true true false false (gen true ex_empty (nib [1])) (rootB ex_empty) (nib [1]) []
+     = Err R_NOTFOUND
+  /\ lookup ex_empty (nibbles_of_bytes (nib [1])) = Some []
+  /\ generate B false false None [[]] = Panic.
+Proof. repeat split; vm_compute; reflexivity. Qed.
+Print Assumptions C05_pinned_refuted.
